@@ -14,6 +14,7 @@ import (
 	"sort"
 	"strconv"
 	"strings"
+	"sync"
 )
 
 // ---------- PRNG: splitmix64, everything random derives from VERIF_SEED ----------
@@ -153,7 +154,21 @@ func (d *Driver) Ask(lines []string) []string {
 		if err != nil {
 			panic(fmt.Sprintf("Lean driver died: %v (after %d answers)", err, len(res)))
 		}
-		res = append(res, strings.TrimRight(s, "\n"))
+		s = strings.TrimRight(s, "\n")
+		if strings.HasPrefix(lines[len(res)], "or.valid") || strings.HasPrefix(lines[len(res)], "or.exp") {
+			oracleMu.Lock()
+			OracleChecked++
+			oracleMu.Unlock()
+		}
+		if strings.HasPrefix(s, "or-mismatch") {
+			oracleMu.Lock()
+			if len(OracleMismatches) < 50 {
+				OracleMismatches = append(OracleMismatches, Disagreement{Class: "template-library-vs-Model/Template",
+					Case: lines[len(res)], Model: s, Impl: "yosida95/uritemplate (called directly by the harness)"})
+			}
+			oracleMu.Unlock()
+		}
+		res = append(res, s)
 	}
 	<-done
 	d.N += len(lines)
@@ -167,6 +182,15 @@ func (d *Driver) Close() {
 	d.in.Close()
 	d.cmd.Wait()
 }
+
+// OracleMismatches: answers of the template library the harness announced to the driver (or.valid / or.exp)
+// that the driver's own template model (Model/Template) does not reproduce. Every report written by this
+// process carries them as disagreements of their own class.
+var (
+	OracleMismatches []Disagreement
+	OracleChecked    int
+	oracleMu         sync.Mutex
+)
 
 // ---------- report ----------
 
@@ -254,6 +278,12 @@ func (r *Report) Write(path string) {
 		keys = append(keys, k)
 	}
 	sort.Strings(keys)
+	oracleMu.Lock()
+	r.Disagreements = append(r.Disagreements, OracleMismatches...)
+	if r.Distribution != nil {
+		r.Distribution["template answers checked against Model/Template"] = OracleChecked
+	}
+	oracleMu.Unlock()
 	if r.Disagreements == nil {
 		r.Disagreements = []Disagreement{}
 	}
